@@ -1,14 +1,5 @@
-mod c01;
-mod c02;
-mod c03;
-mod c18;
 mod c19;
 mod c20;
-mod c22;
-mod c33;
-mod c34;
-mod c35;
-mod c36;
 
 fn main() {
     let args: Vec<String> = std::env::args().skip(1).collect();
@@ -16,17 +7,8 @@ fn main() {
     vcore::quiet_panics();
     let ctx = vcore::Ctx::new(&id, &args[1.min(args.len())..]);
     match id.as_str() {
-        "C01" => c01::run(&ctx),
-        "C02" => c02::run(&ctx),
-        "C03" => c03::run(&ctx),
-        "C18" => c18::run(&ctx),
         "C19" => c19::run(&ctx),
         "C20" => c20::run(&ctx),
-        "C22" => c22::run(&ctx),
-        "C33" => c33::run(&ctx),
-        "C34" => c34::run(&ctx),
-        "C35" => c35::run(&ctx),
-        "C36" => c36::run(&ctx),
         _ => {
             eprintln!("unknown property id {id:?}");
             std::process::exit(2);
